@@ -1,4 +1,8 @@
+#[cfg(not(ruler_verif))]
 use std::thread;
+#[cfg(ruler_verif)]
+use crate::verif::rt::{thread, mpsc::{self, Sender, Receiver, SendError, RecvError}};
+#[cfg(not(ruler_verif))]
 use std::sync::mpsc::
 {
     self,
